@@ -28,5 +28,32 @@ $BIN/llvm-cov report $VF -instr-profile=$T/all.profdata /repo/src 2>/dev/null | 
 $BIN/llvm-cov show $VF -instr-profile=$T/all.profdata /repo/src --show-line-counts-or-regions=false 2>/dev/null > $OUT/show.txt
 # uncovered executable lines: count column is 0
 awk '/^\/repo\/src/ {f=$0} /^ +[0-9]+\| +0\|/ {print f " " $0}' $OUT/show.txt > $OUT/uncovered.txt
+# uncovered code regions (finer than lines: an untaken branch inside an executed line)
+$BIN/llvm-cov export $VF -instr-profile=$T/all.profdata /repo/src 2>/dev/null > $OUT/export.json
+python3 - $OUT <<'PY'
+import json,sys
+out=sys.argv[1]
+d=json.load(open(out+'/export.json'))
+rows=[]
+for f in d['data'][0]['functions']:
+    for r in f['regions']:
+        l1,c1,l2,c2,cnt,fid,efid,kind=r
+        if cnt==0 and kind==0 and f['filenames'][fid].startswith('/repo/src/'):
+            rows.append((f['filenames'][fid],l1,c1,l2,c2))
+# a region is uncovered only if no instantiation of the function covered it
+cov=set()
+for f in d['data'][0]['functions']:
+    for r in f['regions']:
+        l1,c1,l2,c2,cnt,fid,efid,kind=r
+        if cnt>0 and kind==0: cov.add((f['filenames'][fid],l1,c1,l2,c2))
+rows=sorted(set(rows)-cov)
+src={}
+with open(out+'/uncovered_regions.txt','w') as o:
+    for fn,l1,c1,l2,c2 in rows:
+        if fn not in src: src[fn]=open(fn).read().split('\n')
+        text=src[fn][l1-1].strip()[:110]
+        o.write(f"{fn[len('/repo/src/'):]}:{l1}:{c1}-{l2}:{c2}  {text}\n")
+print(len(rows),'uncovered regions ->',out+'/uncovered_regions.txt')
+PY
 wc -l $OUT/uncovered.txt
 rm -rf $T
